@@ -223,6 +223,35 @@ Proof. unfold Decomp.cell.
   destruct (solve s n j u) as [[b|] s1] eqn:E3; intros H; inversion H; subst.
   right; right. exists b. auto. Qed.
 
+(* -------- completeness reduces to the oracle: a try is abandoned only because the solver refused a cell,
+   and every try starts again from the requested matrix *)
+Lemma cell_none n j st s s' : cell n j st s = (None, s') -> exists s0 u, fst (solve s0 n j u) = None.
+Proof. destruct st as [l u]. unfold Decomp.cell. destruct (small (u n j) && iib). discriminate.
+  destruct (if perm_on && iib then find_zero small j u (S n) (j - n) else None). discriminate.
+  destruct (solve s n j u) as [[b|] s1] eqn:E. discriminate. intros _. exists s, u. rewrite E. reflexivity. Qed.
+Lemma run_col_none j cnt : forall n st s s', run_col j n cnt st s = (None, s') ->
+  exists s0 n0 u, fst (solve s0 n0 j u) = None.
+Proof. induction cnt; intros n st s s' H; simpl in H. discriminate.
+  destruct (cell n j st s) as [[st1|] s1] eqn:E.
+  - eapply IHcnt; eauto.
+  - apply cell_none in E. destruct E as [s0 [u E]]. exists s0, n, u. exact E. Qed.
+Lemma run_outer_none j : forall st s s', run_outer j st s = (None, s') ->
+  exists s0 n0 j0 u, fst (solve s0 n0 j0 u) = None.
+Proof. induction j; intros st s s' H; cbn [Decomp.run_outer] in H. discriminate.
+  destruct (run_col (S j) 0 (S j) st s) as [[st1|] s1] eqn:E.
+  - eapply IHj; eauto.
+  - apply run_col_none in E. destruct E as [s0 [n0 [u E]]]. exists s0, n0, (S j), u. exact E. Qed.
+Theorem triangle_none wp U s s' : triangle m small skip iib perm_on Os solve wp U s = (None, s') ->
+  exists s0 n j u, fst (solve s0 n j u) = None.
+Proof. unfold triangle. destruct (run_outer (m - 1) ([], U) s) as [[[l u]|] s1] eqn:E. discriminate.
+  intros _. eapply run_outer_none; eauto. Qed.
+Theorem retry_none tries wp U : forall s s',
+  retry m small skip iib perm_on Os solve tries wp U s = (None, s') ->
+  tries = 0%nat \/ exists s0 n j u, fst (solve s0 n j u) = None.
+Proof. induction tries; intros s s' H. left; reflexivity. right. simpl in H.
+  destruct (triangle m small skip iib perm_on Os solve wp U s) as [[r|] s1] eqn:E. discriminate.
+  eapply triangle_none; eauto. Qed.
+
 Lemma setz_same n j (pre : mat) : pre n j = k0 -> meq m (setz n j pre) pre.
 Proof. intros H a b _ _. unfold setz. destruct ((a =? n) && (b =? j)) eqn:E; auto.
   apply andb_true_iff in E. destruct E as [E1 E2]. apply Nat.eqb_eq in E1, E2. subst. auto. Qed.
@@ -589,6 +618,16 @@ Proof. intros HU H. unfold decomposition in H.
 End Run.
 
 End DecompP.
+
+(* Circuit.decomposition answers None only when max_try = 0 or the solver refused some cell: the completeness
+   sentence of the property is exactly a statement about the numerical solver *)
+Theorem decomposition_none_only_from_solver (R : cring) m small skip iib perm_on Os solve hinv_b vinv_b
+  wp v h tries (U : mat R) s s' :
+  decomposition m small skip iib perm_on Os solve hinv_b vinv_b wp v h tries U s = (None, s') ->
+  tries = 0%nat \/ exists s0 n j u, fst (solve s0 n j u) = None.
+Proof. unfold decomposition.
+  destruct (retry m small skip iib perm_on Os solve tries wp (preprocess m v h U) s) as [[[l u]|] s1] eqn:E.
+  discriminate. intros _. eapply retry_none; eauto. Qed.
 
 From PV Require Import Model.DecompX.
 
